@@ -389,6 +389,12 @@ struct StrPool {
         else if (op == "masg") { S &src = at(idx(2)); at(o) = std::move(src); }
         else if (op == "set") { Block<char> d = units<char>(f[2]); at(o) = ST::char_buffer(d.data(), d.size()); }
         else if (op == "append") { at(o) += at(idx(2)); }
+        // ---- self-referential calls through the const char* / string_view glue: the argument is a proper sub-range
+        //      of the target's own bytes
+        else if (op == "selfset") { S &x = at(o); x.set(x.c_str() + u64(f[2]), u64(f[3])); }
+        else if (op == "selfview") { S &x = at(o); x.set(x.view(u64(f[2]), u64(f[3]))); }
+        else if (op == "selfasg") { S &x = at(o); x = x.c_str() + u64(f[2]); }
+        else if (op == "selfappend") { S &x = at(o); x += x.c_str() + u64(f[2]); }
         else if (op == "clear") { at(o).clear(); }
         else if (op == "del") { kill(o); }
         // ---- operations that throw (C18): the exception propagates to run()
